@@ -296,6 +296,9 @@ func (fr *Frame) applyContract(fc *FuncContract, key string, sig *types.Signatur
 	}
 	// parameter names: from the contract header, else p0, p1...
 	names := fc.ParamNames
+	if fc.Recv != "" && len(names) == len(args)+1 {
+		names = names[1:] // contract on a function-typed field: the "receiver" is not an argument
+	}
 	if len(names) != len(args) {
 		// try names from the SSA function
 		if fn := g.W.lookupFunc(key); fn != nil && len(fn.Params) == len(args) {
@@ -948,6 +951,12 @@ func (fr *Frame) execDeferredCall(d *ssa.Defer, c *blockCtx) {
 		fv := fr.deferFn[d]
 		if cl, ok := g.closures[fv.S]; ok {
 			fr.callStatic(cl.fn, cl.bindings, args, sig, c, d)
+			return
+		}
+		if key, fc := fr.funcValueContract(cc.Value); fc != nil {
+			fr.applyContract(fc, key, sig, args, sigParamTypes(sig), c, d)
+			return
+		} else if key != "" && g.W.ignored(key) {
 			return
 		}
 		g.fail("deferred dynamic call in %s", funcKey(fr.fn))
